@@ -271,6 +271,9 @@ def run(tier):
     common.tlc_require_ok(r, "MC_Reader")
     v.add_tlc(r)
     v.cov["mc_reader"] = {"distinct_states": r.distinct, "generated": r.generated}
+    # unbounded: files of any size, any number of commits, any cache limit (ReaderProof.tla, TLA+ proof system)
+    n_obl, _ = common.tlapm("ReaderProof", deps=("Reader",), timeout=600, threads=4)
+    v.cov["tlaps_obligations_proved"] = n_obl
     h = common.build_harness()
     nsim = 3 if tier == "quick" else 24
     beh = behaviours(v, nsim, 70 if tier == "quick" else 120, common.seed() + 1)
